@@ -98,8 +98,30 @@ def run_confusion(spec, rec, lib):
             del dels[X]
         trusted = gmd.envelope(gmd.delegating(rng.choice(["root", "key_mgr"]), dels, version=3))
         usigned = gmd.delegating(X, {Y: gmd.delegation(U[3:5], 1)}, version=rng.randint(1, 4))
-        if rng.random() < 0.3:
+        # every schema-valid shape of the signed part must be bound to its type: vary the optional and
+        # free-form fields (dates in any order, version-only / timestamp-only, extra fields, empty delegations)
+        shape = rng.choice(["plain", "no_timestamp", "expired_before_timestamp", "expiration_equals_timestamp", "far_future",
+                            "no_version", "extra_fields", "no_delegations", "big_version", "odd_spec_version"])
+        if shape == "no_timestamp":
             usigned.pop("timestamp")
+        elif shape == "expired_before_timestamp":
+            usigned["timestamp"], usigned["expiration"] = "2030-06-01T00:00:00Z", "2021-01-01T00:00:00Z"
+        elif shape == "expiration_equals_timestamp":
+            usigned["timestamp"] = usigned["expiration"] = "2025-02-28T23:59:59Z"
+        elif shape == "far_future":
+            usigned["timestamp"], usigned["expiration"] = "9998-12-31T23:59:59Z", "9999-12-31T23:59:59Z"
+        elif shape == "no_version" and X != "root":
+            usigned.pop("version")
+        elif shape == "extra_fields":
+            usigned["extra"] = {"anything": [1, None, "x"]}
+            usigned[""] = 0
+        elif shape == "no_delegations":
+            usigned["delegations"] = {}
+        elif shape == "big_version":
+            usigned["version"] = 2**64
+        elif shape == "odd_spec_version":
+            usigned["metadata_spec_version"] = rng.choice(["", "99.0.0", "not-a-version"])
+        rec.hist("confusion_shape", shape)
         untrusted = gmd.envelope(usigned)
         data = canonjson.canon(usigned)
         gmd.sign_env(untrusted, ks, gpg, rng)
